@@ -233,6 +233,9 @@ def worker(spec_path, out_path):
                 for name in spec["extract_rz"]:
                     res["rz"][name] = extractors.EXTRACTORS[name](eq, mesh, spec)
             mesh.geometry()
+            if spec.get("geometry_twice"):
+                # the GUI calls geometry() again before every write: the result must not accumulate
+                mesh.geometry()
             # other meshes built completely (equilibrium, mesh, geometry) between this mesh's geometry() and its writeGridfile(): what is written
             # must not depend on them
             for hs in spec.get("interleave", []):
